@@ -77,6 +77,10 @@ func init() {
 		Assumptions: []string{"the abstract log and the reference follower in harness/logm are correct (textbook append/compact/install-snapshot semantics)",
 			"the scripted cluster of driver L3 only emits messages a correct leader could have sent (leader completeness is enforced by the script)",
 			"VerifLog is a pure pass-through to raftLog"}}
+	props["C19"] = propCfg{Pkg: "./replay", Test: "TestC19", Level: "exploration",
+		Quick: tierCfg{Shards: 8, Checks: 400}, Thorough: tierCfg{Shards: 16, Checks: 20000},
+		Assumptions: []string{"the simulator itself is deterministic given its draws (no wall clock, no goroutines, sorted iteration everywhere in the harness); a harness nondeterminism would show up as a false alarm, never mask one",
+			"probabilistic detector: Go randomizes map iteration per range statement, so a map-order dependence flips with probability >= 1/2 per affected call; a dependence on something that does not vary between the runs (e.g. GOARCH) is invisible"}}
 	props["C13"] = propCfg{Pkg: "./pure", Test: "TestC13", ExtraRun: "^TestC13Closure$", Level: "exploration",
 		Quick: tierCfg{Shards: 8, Checks: 2500}, Thorough: tierCfg{Shards: 16, Checks: 100000}, Assumptions: pureAssume}
 }
@@ -180,7 +184,16 @@ func main() {
 		seed = v
 	}
 	start := time.Now()
-	outDir := filepath.Join(verifRoot, "out", prop)
+	// VERIF_REPO (development only): build against another copy of the
+	// repository (a scratch worktree with a seeded change) instead of /repo;
+	// output and evidence then go to out/<prop>@<tag> and never touch
+	// /verif/evidence.
+	altRepo := os.Getenv("VERIF_REPO")
+	outName := prop
+	if altRepo != "" {
+		outName = prop + "@" + filepath.Base(altRepo)
+	}
+	outDir := filepath.Join(verifRoot, "out", outName)
 	if replay == "" {
 		_ = os.RemoveAll(outDir)
 	}
@@ -190,7 +203,22 @@ func main() {
 
 	// 1. build the test binary from the current /repo tree
 	bin := filepath.Join(outDir, "check.test")
-	build := exec.Command(goBin, "test", "-c", "-tags", "verif", "-o", bin, cfg.Pkg)
+	buildArgs := []string{"test", "-c", "-tags", "verif", "-o", bin}
+	if altRepo != "" {
+		gm, err := os.ReadFile(filepath.Join(harness, "go.mod"))
+		if err != nil {
+			infra("read go.mod: %v", err)
+		}
+		alt := strings.Replace(string(gm), "=> /repo", "=> "+altRepo, 1)
+		modfile := filepath.Join(outDir, "alt.mod")
+		_ = os.WriteFile(modfile, []byte(alt), 0o644)
+		if gs, err := os.ReadFile(filepath.Join(harness, "go.sum")); err == nil {
+			_ = os.WriteFile(filepath.Join(outDir, "alt.sum"), gs, 0o644)
+		}
+		buildArgs = append(buildArgs, "-modfile="+modfile)
+	}
+	buildArgs = append(buildArgs, cfg.Pkg)
+	build := exec.Command(goBin, buildArgs...)
 	build.Dir = harness
 	build.Env = goEnv()
 	if out, err := build.CombinedOutput(); err != nil {
@@ -362,6 +390,9 @@ func main() {
 	// 5. evidence
 	ev := mergeEvidence(prop, tier, seed, cfg, tc, results, extraReports, violations, time.Since(start))
 	evPath := filepath.Join(verifRoot, "evidence", prop+".json")
+	if altRepo != "" {
+		evPath = filepath.Join(outDir, "evidence.json")
+	}
 	_ = os.MkdirAll(filepath.Dir(evPath), 0o755)
 	b, _ := json.MarshalIndent(ev, "", " ")
 	if err := os.WriteFile(evPath, b, 0o644); err != nil {
